@@ -156,29 +156,44 @@ Definition tiny_systems : list (string * list string * list string) :=
 Definition tiny_st (qk : quirks) : sstate :=
   (build_state qk tiny_reg tiny_raw tiny_groups tiny_systems [("group", "Dflt"); ("system", "mks")]).1.
 
+(** reading the members of a system keeps the group invariant, whatever the outcome *)
+Lemma sys_members_ginv qk st name : ginv (ss_groups st) → ginv (ss_groups (sys_members qk st name).1).
+Proof.
+  intros I. destruct (ss_systems st !! name) as [s|] eqn:Hs; [|unfold sys_members; rewrite Hs; exact I].
+  rewrite (sys_members_unfold qk st name s Hs).
+  destruct (if q_sys_memo_stale qk then s_memo s else None); [exact I|].
+  destruct (sm_fold (ss_groups st) (elements (s_used s)) (ss_groups st) ∅ I (same_core_refl _)) as (gs' & v & Hf & I' & _ & _).
+  rewrite Hf. exact I'.
+Qed.
+
 (** F10: after a group edit the system still answers with its old memo *)
 Definition f10_groups : gstate := grun repaired init_groups [GGetGroup "G"; GAddUnits "G" ["inch"]].
 Definition f10_st0 : sstate := SS f10_groups {[ "S" := Sys ∅ {[ "G" ]} None ]} None [].
 Definition f10_st1 : sstate := (sys_members faithful f10_st0 "S").1.
 Definition f10_st2 : sstate := ss_set_groups f10_st1 (add_units (ss_groups f10_st1) "G" ["gee"]).1.
+Definition f10_ok : bool :=
+  match ss_systems f10_st2 !! "S", ss_groups f10_st2 !! "G", (sys_members faithful f10_st2 "S").2 with
+  | Some s, Some g, Ok v =>
+      bool_decide ("G" ∈ s_used s) && bool_decide ("gee" ∈ g_units g) && negb (bool_decide ("gee" ∈ v))
+  | _, _, _ => false
+  end.
+Lemma f10_ok_true : f10_ok = true.
+Proof. vm_compute. reflexivity. Qed.
 Theorem sys_members_stale_refuted :
   ∃ st name s v u, ss_systems st !! name = Some s ∧ ginv (ss_groups st)
     ∧ (sys_members faithful st name).2 = Ok v ∧ sys_union (ss_groups st) s u ∧ u ∉ v.
 Proof.
   assert (I0 : ginv (ss_groups f10_st0)) by (apply grun_ginv; [reflexivity|reflexivity|apply ginv_init]).
-  assert (I1 : ginv (ss_groups f10_st1)).
-  { destruct (sys_members faithful f10_st0 "S").2 as [v|] eqn:Ev; [|revert Ev; vm_compute; discriminate].
-    destruct (sys_members_static faithful f10_st0 "S" (Sys ∅ {[ "G" ]} None) v) as (_ & _ & I1 & _);
-      [reflexivity|exact I0|reflexivity|exact Ev|exact I1]. }
+  assert (I1 : ginv (ss_groups f10_st1)) by (apply sys_members_ginv, I0).
   assert (I2 : ginv (ss_groups f10_st2)) by (apply add_units_ginv, I1).
-  destruct (ss_systems f10_st2 !! "S") as [s|] eqn:Es; [|revert Es; vm_compute; discriminate].
-  destruct (sys_members faithful f10_st2 "S").2 as [v|] eqn:Ev; [|revert Ev; vm_compute; discriminate].
-  exists f10_st2, "S", s, v, "gee". split; [exact Es|]. split; [exact I2|]. split; [exact Ev|]. split.
-  - exists "G". split; [revert Es; vm_compute; intros Es; injection Es as <-; vm_compute; set_solver|].
-    destruct (ss_groups f10_st2 !! "G") as [g|] eqn:Eg; [|revert Eg; vm_compute; discriminate].
-    split; [eauto|]. exists "G", g. split; [apply rtc_refl|]. split; [exact Eg|].
-    revert Eg. vm_compute. intros Eg. injection Eg as <-. vm_compute. set_solver.
-  - revert Ev. vm_compute. intros Ev. injection Ev as <-. vm_compute. set_solver.
+  pose proof f10_ok_true as H. unfold f10_ok in H.
+  destruct (ss_systems f10_st2 !! "S") as [s|] eqn:Es; [|discriminate].
+  destruct (ss_groups f10_st2 !! "G") as [g|] eqn:Eg; [|discriminate].
+  destruct (sys_members faithful f10_st2 "S").2 as [v|] eqn:Ev; [|discriminate].
+  apply andb_true_iff in H as [H H3]. apply andb_true_iff in H as [H1 H2].
+  apply bool_decide_eq_true in H1, H2. apply negb_true_iff, bool_decide_eq_false in H3.
+  exists f10_st2, "S", s, v, "gee". split; [exact Es|]. split; [exact I2|]. split; [exact Ev|]. split; [|exact H3].
+  exists "G". split; [exact H1|]. split; [eauto|]. exists "G", g. split; [apply rtc_refl|]. split; assumption.
 Qed.
 
 (** * Base units *)
